@@ -223,6 +223,6 @@ func init() {
 		Components: kComponents, Assumptions: append([]string{"the relative order of two simultaneously pending tracee stops is the kernel's; oracles do not depend on it"}, kAssume...), NeedNS: true,
 		Quick:    vcore.Budget{Wall: 30 * time.Second, Shards: 16},
 		Thorough: vcore.Budget{Wall: 12 * time.Minute, Shards: 16},
-		Init:     kInit, Run: c03Run, StallLimit: 120 * time.Second,
+		Init:     kInitUnpriv, Run: c03Run, StallLimit: 120 * time.Second,
 	})
 }
